@@ -155,7 +155,7 @@ impl Check for C18 {
         "fault_enumeration"
     }
     fn rule(&self) -> &'static str {
-        "case = configuration with 1-4 modes (identifier-like distinct names), lookaheads of both polarities (also nullable ones), ~9% with a token type shared by several patterns of a mode, classes and literals whose text needs escaping in a label (quote, backslash, newline, non-ASCII, braces), a random prefix, a target folder that is fresh or already holds larger files of an earlier export under the same names plus an unrelated file, plus one injected fault out of {none, target folder missing, regular file in place of the folder, directory occupying an output file name, over-long prefix}; oracle = without fault: Ok, the fresh target directory contains exactly the files <prefix>_<mode>.dot, each parses with a strict parser of the DOT subset, and by content: nodes = states (number leading the label), ` T<t>` exactly on accepting non-start states with t their token type, multiset of edges (source state, trailing (C#id), target state) = multiset of transitions of the feature-gated dump, exactly one cluster per lookahead labelled with T<t> and Pos/Neg containing the lookahead automaton under the same rules; with fault: Err and no panic; non-trivial = >= 2 modes or >= 1 lookahead together with a label needing an escape"
+        "case = configuration with 1-4 modes (identifier-like distinct names), lookaheads of both polarities (also nullable ones), ~9% with a token type shared by several patterns of a mode, classes and literals whose text needs escaping in a label (quote, backslash, newline, non-ASCII, braces), a random prefix, a target folder that is fresh or already holds larger files of an earlier export under the same names plus an unrelated file, plus one injected fault out of {none, target folder missing, regular file in place of the folder, directory occupying the output file name of the last / of the first mode, over-long prefix}; oracle = without fault: Ok, the fresh target directory contains exactly the files <prefix>_<mode>.dot, each parses with a strict parser of the DOT subset, and by content: nodes = states (number leading the label), ` T<t>` exactly on accepting non-start states with t their token type, multiset of edges (source state, trailing (C#id), target state) = multiset of transitions of the feature-gated dump, exactly one cluster per lookahead labelled with T<t> and Pos/Neg containing the lookahead automaton under the same rules; with fault: Err and no panic; non-trivial = >= 2 modes or >= 1 lookahead together with a label needing an escape"
     }
     fn cases(&self, thorough: bool) -> usize {
         if thorough {
@@ -238,7 +238,7 @@ impl Check for C18 {
         for _ in 0..1 + d.below(8) {
             prefix.push(*d.pick(&pchars));
         }
-        let fault = *d.pick(&["none", "none", "none", "missing_folder", "file_as_folder", "dir_as_output", "long_prefix"]);
+        let fault = *d.pick(&["none", "none", "none", "missing_folder", "file_as_folder", "dir_as_output", "dir_as_first_output", "long_prefix"]);
         Case {
             modes,
             extra: json!({"prefix": prefix, "fault": fault, "prefill": d.chance(80)}),
@@ -300,6 +300,12 @@ impl Check for C18 {
                     std::fs::create_dir_all(&target)?;
                     let last = case.modes.last().unwrap();
                     std::fs::create_dir_all(target.join(format!("{}_{}.dot", prefix, last.name)))?;
+                }
+                "dir_as_first_output" => {
+                    // only the file of the FIRST mode cannot be created (the later ones can)
+                    std::fs::create_dir_all(&target)?;
+                    let first = case.modes.first().unwrap();
+                    std::fs::create_dir_all(target.join(format!("{}_{}.dot", prefix, first.name)))?;
                 }
                 "long_prefix" => {
                     std::fs::create_dir_all(&target)?;
